@@ -186,6 +186,16 @@ def extract():
     g["hbIntervalFrom"] = m.group(1)
     g["hbTimeoutFrom"] = m.group(2)
 
+    # ---- command line: which (interval, timeout) pairs are accepted --------------------
+    cbin = strip_comments(read("src/bin/client.rs"))
+    m = one(r"fn parse_u64\(value: &str, flag: &str\) -> Result<u64>\s*\{(.*?)\n\}", cbin, "parse_u64")
+    body = m.group(1)
+    if not re.search(r"\.parse::<u64>\(\)", body) or not re.search(r"if parsed == 0\s*\{\s*anyhow::bail!", body) or not re.search(r"Ok\(parsed\)", body):
+        raise ExtractError("parse_u64: unexpected body (expected: parse::<u64>, reject 0, Ok(parsed))")
+    for flag, var in (("--idle-session-check-interval", "idle_check_interval"), ("--idle-session-timeout", "idle_timeout")):
+        one(re.escape(var) + r"\s*=\s*Some\(parse_u64\(&value, \"" + re.escape(flag) + r"\"\)\?\)", cbin, "cli " + flag)
+    g["cliAcceptsEveryPositive"] = True
+
     # ---- pool defaults -------------------------------------------------------------
     pool = strip_comments(read("src/client/session_pool.rs"))
     m = one(r"impl Default for SessionPoolConfig\s*\{\s*fn default\(\) -> Self\s*\{\s*Self\s*\{(.*?)\}", pool,
@@ -264,6 +274,8 @@ def render(g):
     a(f"def synackTimeoutSecs : Nat := {g['synackTimeoutSecs']}")
     a(f"def hbIntervalFrom : String := {lean_str(g['hbIntervalFrom'])}")
     a(f"def hbTimeoutFrom : String := {lean_str(g['hbTimeoutFrom'])}")
+    a("/-- `parse_u64` accepts exactly the integers > 0 for both heartbeat-related flags -/")
+    a(f"def cliAcceptsEveryPositive : Bool := {'true' if g['cliAcceptsEveryPositive'] else 'false'}")
     a(f"def poolCheckIntervalSecs : Nat := {g['poolCheckIntervalSecs']}")
     a(f"def poolIdleTimeoutSecs : Nat := {g['poolIdleTimeoutSecs']}")
     a(f"def poolMinIdle : Nat := {g['poolMinIdle']}")
